@@ -1,69 +1,97 @@
 #!/usr/bin/env python3
-"""Keeps confirmed seeded changes under /verif/seeded/<property>-<n>/ (patch.diff, demo.rs,
-meta.json) from the sub-agents' output directories and their evaluation files, and rewrites
-/verif/seeded/RESULTS.md (which check catches which change).
+"""Keeps confirmed seeded changes under /verif/seeded/<property>-<round><n>/ (patch.diff, demo.rs,
+notes.md, meta.json) from the sub-agents' output directories and their evaluation files, and
+rewrites /verif/seeded/RESULTS.md (which check catches which change).
 
   bin/seed-keep.py            # (re)collect everything that has an eval<i>.json
 """
 import json, glob, os, shutil, re
 
+# changes the checks missed when they were first evaluated, and what was strengthened for them
+# (the strengthening is general - a new fault kind, workload shape or oracle clause - never a
+# special case for the change)
+STRENGTHENED = {
+    "C05-2": "the Datalog workload now writes the same rule into several blocks (a rule owned by two blocks must fire for both)",
+    "C10-1": "new oracle clause: the iteration count the budget is charged with is compared with an independent count of the reference fixpoint (R5), also across a run that ended on a limit",
+    "C12-1": "the conformance corpus became fixed inputs of the checks (a published token with third-party blocks must load and print as published); Byzantine re-declaration sweep",
+    "C07-2": "new C07 isolation clause: a token holding a third-party block means the same in memory and reloaded, every reference resolves to what its author wrote; third-party corpus samples as fixed inputs",
+    "C03-2": "generator: chained derivations, shortcut rules deriving another rule's head directly from base facts, rules repeated by another party (one fact under several origins, reached in different iterations)",
+    "C09-1": "new adversary operator EvalEdge: correctly signed blocks whose expressions apply every operator to the ends of every value domain, as literals and as values bound from facts; error-prone expressions in the legitimate history",
+    "C11-1": "new clause: the evaluated authorizer saved under one hash order and restored under another is the same authorizer; the virtual clock's rate now varies per hash key (a clock that never advanced made a restored snapshot re-evaluate, which hid the loss)",
+    "C15-2": "the OS-randomness uniqueness probe now also covers build(), Biscuit::append_third_party and UnverifiedBiscuit::append_third_party",
+}
+
+def needs_section(text):
+    """the sub-agent's own words on what the change needs in order to manifest"""
+    m = re.search(r"(?ims)^#+[^\n]*(needed|needs|manifest)[^\n]*\n(.*?)(?=^#+ |\Z)", text)
+    if m:
+        return m.group(2).strip()[:1500]
+    m = re.search(r"(?ims)^[-* ]*\**(what is needed|needed|needs)[^\n]*\n(.*?)(?=\n\n[A-Z#]|\Z)", text)
+    return (m.group(0).strip() if m else text[:600])[:1500]
+
 rows = []
 for ev in sorted(glob.glob("/tmp/mut/*-out/eval*.json")):
     e = json.load(open(ev))
-    prop, idx = e["property"], e["index"]
+    prop, idx, rnd = e["property"], e["index"], e.get("round", "")
     out = os.path.dirname(ev)
     confirmed = all(e.get(k) for k in ("applies", "demo_with_patch_fails", "suite_with_patch_passes", "demo_without_patch_passes"))
-    dst = f"/verif/seeded/{prop}-{idx}"
+    name = f"{prop}-{rnd}{idx}"
+    dst = f"/verif/seeded/{name}"
     if not confirmed:
+        print(f"not kept (confirmation incomplete): {name}",
+              {k: e.get(k) for k in ("applies", "demo_with_patch_fails", "suite_with_patch_passes", "demo_without_patch_passes")})
         continue
     os.makedirs(dst, exist_ok=True)
     shutil.copy(e["patch"], f"{dst}/patch.diff")
     shutil.copy(e["demo"], f"{dst}/demo.rs")
     notes = f"{out}/notes{idx}.md"
-    needs = ""
+    text = ""
     if os.path.exists(notes):
         shutil.copy(notes, f"{dst}/notes.md")
-        needs = open(notes).read()
+        text = open(notes).read()
+    title = next((l.lstrip("# ").strip() for l in text.splitlines() if l.startswith("# ")), "")
     det = e.get("detection", {})
     meta_path = f"{dst}/meta.json"
     old = json.load(open(meta_path)) if os.path.exists(meta_path) else {}
     history = old.get("detection_history", [])
-    entry = {p: {"exit": d.get("exit"), "lines": d.get("lines", [])[:3]} for p, d in det.items() if isinstance(d, dict)}
+    entry = {p: {"exit": d.get("exit"), "lines": [l for l in d.get("lines", []) if not l.startswith("KNOWN")][:3]} for p, d in det.items() if isinstance(d, dict)}
     if not history or history[-1] != entry:
         history.append(entry)
+    pkg = "biscuit-capi" if prop == "C19" else "biscuit-auth"
     meta = {
         "breaks_property": prop,
+        "title": title,
         "source": "independent sub-agent given only the property text and a private worktree of /repo",
-        "what_it_needs_to_manifest": "see notes.md (written by the sub-agent)",
+        "what_it_needs_to_manifest": needs_section(text),
         "confirmed_in_scratch_worktree": {
             "patch_applies": e.get("applies"),
             "existing_suite_passes_with_patch": e.get("suite_with_patch_passes"),
             "demonstration_fails_with_patch": e.get("demo_with_patch_fails"),
             "demonstration_passes_without_patch": e.get("demo_without_patch_passes"),
+            "note": e.get("confirmation_note"),
             "commands": [
-                "git -C /repo worktree add --detach /tmp/scr/wt HEAD; git apply patch.diff",
-                "cp demo.rs biscuit-auth/tests/seed_demo.rs (biscuit-capi/tests/ for C19); cargo test --offline --test seed_demo",
-                "cargo nextest run --workspace --no-fail-fast --offline --retries 3",
+                "git -C /repo worktree add --detach /tmp/scr/wt HEAD; cd /tmp/scr/wt; git apply patch.diff",
+                f"cp demo.rs {pkg}/tests/seed_demo.rs; cargo test -p {pkg} --offline --test seed_demo   (fails with the patch, passes without)",
+                "cargo nextest run --workspace --no-fail-fast --offline --retries 3   (passes with the patch)",
             ],
         },
         "checks_run_against_it": "git -C /repo apply patch.diff; bin/check <property> quick; git -C /repo checkout -- .",
+        "missed_at_first_then_strengthened": STRENGTHENED.get(name),
         "detection_history": history,
         "caught_by": sorted(p for p, d in entry.items() if d["exit"] == 1),
     }
     json.dump(meta, open(meta_path, "w"), indent=1)
-    first = ""
-    if needs:
-        m = re.search(r"(?im)^.*(needs|manifest|trigger).*$", needs)
-        first = (m.group(0) if m else needs.splitlines()[0])[:160]
-    rows.append((prop, idx, meta["caught_by"], entry, first))
+    rows.append((name, prop, title, meta["caught_by"], entry))
 
 with open("/verif/seeded/RESULTS.md", "w") as f:
     f.write("# Seeded changes and the checks that catch them\n\n")
     f.write("Each row is one source change written by an independent sub-agent (given only the property text),\n")
     f.write("confirmed in a scratch worktree (suite passes with it, demonstration fails with it and passes without),\n")
-    f.write("then applied to /repo for one run of the quick check(s) and reverted. `exit 1` = caught.\n\n")
-    f.write("| seeded change | breaks | caught by (quick tier) | all results of the last evaluation |\n|---|---|---|---|\n")
-    for prop, idx, caught, entry, first in rows:
+    f.write("then applied to /repo for one run of the quick check(s) and reverted. `exit 1` = caught.\n")
+    f.write("`<property>-<n>` is the first round, `<property>-b<n>` the second (told what the first produced, to get a different kind).\n\n")
+    f.write("| seeded change | what it is | caught by (quick tier) | last evaluation | missed at first? |\n|---|---|---|---|---|\n")
+    for name, prop, title, caught, entry in rows:
         res = ", ".join(f"{p}: exit {d['exit']}" for p, d in sorted(entry.items()))
-        f.write(f"| {prop}-{idx} | {prop} | {', '.join(caught) if caught else '**missed**'} | {res} |\n")
-print(f"kept {len(rows)} seeded changes; caught {sum(1 for r in rows if r[2])}")
+        t = re.sub(r"^(C\d+ )?(seeded defect|change|Change) ?\d* ?[—:-]+ ?", "", title)[:140].replace("|", "/")
+        f.write(f"| {name} | {t} | {', '.join(caught) if caught else '**missed**'} | {res} | {'yes: ' + STRENGTHENED[name] if name in STRENGTHENED else ''} |\n")
+print(f"kept {len(rows)} seeded changes; caught {sum(1 for r in rows if r[3])}")
